@@ -11,7 +11,7 @@ RULE = (
     "+-1, +-2^k, +-(2^k +- 1) up to 2^53, finite floats over 1e-300..1e300 and shortest-repr stress values, booleans, dates "
     "sampled over 1900-03-01..9999-12-31 incl. month ends and 29 Feb, times over every hh:mm boundary and sampled seconds; "
     "ragged rows (padding); each sheet requested through rowio.excel_rows(path, sheet) and through cutplace.rows with a "
-    "CID Sheet property; string tables written with rowio.XlsxRowWriter and read back. Expected text computed from the "
+    "CID Sheet property; string tables written with rowio.XlsxRowWriter and read back, a tenth of them at the limits of the format (32767 / 32768 characters in a cell, 16384 / 16385 cells in a row). Expected text computed from the "
     "values handed to the producer (numbers via float('%.16G' % v), the precision xlsx stores). A case is (workbook "
     "cells, sheet request), distinct by digest; non-trivial with a non-string cell or a sheet other than the first."
 )
@@ -211,7 +211,7 @@ def padded(table):
 
 
 def check_writer_roundtrip(ctx, index):
-    from cutplace import rowio
+    from cutplace import errors, rowio
 
     rng = ctx.rng("writer", index)
     table = []
@@ -219,12 +219,29 @@ def check_writer_roundtrip(ctx, index):
         table.append([rng.choice(STRINGS + ["x", "y z"]) for _ in range(rng.randint(1, 6))])
     path = os.path.join(ctx.tmp, "rt.xlsx")
     case = {"table": table, "via": "XlsxRowWriter"}
+    limit_case = None
+    if index % 10 == 3:
+        # at the limits of the workbook format: what cannot be stored must be refused by the writer, not cut off
+        limit_case = rng.choice(["cell-32767", "cell-32768", "row-16384", "row-16385"])
+        if limit_case.startswith("cell"):
+            table[0][0] = "x" * int(limit_case[5:])
+        else:
+            table[0] = ["c"] * int(limit_case[4:])
+        case = {"table": "regenerated from the seed", "via": "XlsxRowWriter", "limit": limit_case, "index": index}
+        ctx.count("writer.roundtrips-at-format-limits")
     ctx.case(case, True)
     ctx.count("writer.roundtrips")
     try:
         writer = rowio.XlsxRowWriter(path)
-        writer.write_rows(table)
-        writer.close()
+        try:
+            writer.write_rows(table)
+        except errors.DataError:
+            if limit_case in ("cell-32768", "row-16385"):
+                ctx.count("writer.refused-beyond-format-limits")
+                return
+            raise
+        finally:
+            writer.close()
         got = list(rowio.excel_rows(path, 1))
     except Exception as error:
         ctx.violation("C16:writer-roundtrip-failed:%s" % type(error).__name__, case, "writing with XlsxRowWriter and reading back failed", observed=error)
@@ -233,7 +250,10 @@ def check_writer_roundtrip(ctx, index):
         if os.path.exists(path):
             os.remove(path)
     want = padded(table)
-    if got != want:
+    if got != want and limit_case:
+        ctx.violation("C16:writer-truncates-at-format-limit", case, "XlsxRowWriter silently cut off what the workbook format cannot hold",
+                      expected="identical table or a data error from the writer", observed={"rows": len(got), "width": len(got[0]) if got else 0, "first-cell-length": len(got[0][0]) if got and got[0] else 0})
+    elif got != want:
         ctx.violation("C16:writer-roundtrip-differs", case, "table written with XlsxRowWriter does not read back identically (modulo padding)", expected=want, observed=got)
 
 
@@ -250,6 +270,9 @@ def run(ctx):
 
 def replay(ctx, case):
     ctx.note("workbooks are regenerated from the seed; rerun the quick check (VERIF_SEED) to reproduce")
+    if "limit" in case:
+        check_writer_roundtrip(ctx, case["index"])
+        return
     if "table" in case:
         from cutplace import rowio
 
